@@ -126,7 +126,14 @@ class Rig:
         hc = nm.Node._handle_connections
         io_lines = hot_lines(hc, ("write_buffer", "write_lock", "remove_out_bytes", ".send(", "sctp_send("))
         ww = pm.PeerConnection.work_write_queue
-        w_lines = hot_lines(ww, ("write_lock", "_write_buffer", "demand_attention"))
+        # every statement of the writer's loop is a scheduling point (the I/O loop reads the buffer without the
+        # lock, so a line that mentions neither may still sit between two stores that belong together); lines that
+        # only log, and the loop head before the get(), are not
+        w_src, w_start = inspect.getsourcelines(ww)
+        after_get = min(hot_lines(ww, (".get(",)) or {0})
+        w_lines = hot_lines(ww, ("write_lock", "_write_buffer", "demand_attention")) | \
+            {l for l in hot_lines(ww, ("",)) if l > after_get and w_src[l - w_start].strip()
+             and not w_src[l - w_start].strip().startswith(("except", "continue", "try:", "break"))}
         if not io_lines or not w_lines:
             raise RuntimeError("no choice points found in the source text")
         as_bytes = Message.__dict__["as_bytes"]
